@@ -78,6 +78,10 @@ Loads == [
   wfx |-> << D("atnums"), L("atcoords", "au", 12), L("energy", "au", 12), L("atgradient", "au", 12), D("title"), L("mo.occs", "au", 12),
              L("mo.energies", "au", 8) >>,
   mwfn |-> << D("atnums"), L("atcoords", "angstrom", 8), L("atcorenums", "au", 1) >>,
+  \* CP2K ATOM output: one atom at the origin; basis and orbitals follow spec/AtomOrbitals.tla
+  cp2klog |-> << D("atnums"), L("atcorenums", "au", 10), L("atcoords", "au", 10), L("energy", "au", 12), D("obasis.angmoms"), D("obasis.kinds"),
+                 D("obasis.ncons"), L("obasis.exponents", "au", 10), L("obasis.coeffs", "au", 10), D("obasis.primitive_normalization"),
+                 D("mo.kind"), D("mo.norba"), D("mo.norbb"), L("mo.coeffs", "au", 12), L("mo.energies", "au", 8), L("mo.occs", "au", 10) >>,
   gamess |-> << D("atnums"), L("atcoords", "angstrom", 10), L("energy", "au", 10), L("atgradient", "au", 14), L("athessian", "au", 9), D("title") >>,
   gaussianinput |-> << D("atnums"), L("atcoords", "angstrom", 8), D("title") >>,
   fchk |-> << D("atnums"), L("atcoords", "au", 8), L("atcorenums", "au", 8), L("energy", "au", 8), L("atmasses", "amu", 8),
